@@ -48,7 +48,7 @@ def run(pid, tier, replay=None):
     # precision of the evaluation in each of the three element types (float, double, long double)
     xfiles = []
     for real in (4, 8, 16):
-        xexe = vlib.cc_build(sc.path("polyx_%d" % real), [os.path.join(vlib.HARNESS, "polyx_h.c")] + vlib.repo_src("poly.c", "trajpoly3.c", "a.c"), sc, real=real, opt="-O1")
+        xexe = vlib.cc_build(sc.path("polyx_%d" % real), [os.path.join(vlib.HARNESS, "polyx_h.c")] + vlib.repo_src("poly.c", "trajpoly3.c", "trajpoly5.c", "trajpoly7.c", "a.c"), sc, real=real, opt="-O1")
         xo = sc.path("px-%d.ndjson" % real)
         rx = vlib.run_harness([xexe, xo], timeout=300)
         if rx.returncode != 0:
